@@ -63,6 +63,10 @@ func VerifC03Syllable() {
 	size, exists := spec.IntervalSize(got.Degree.Value, crdx.QualityCode(got.Degree.Name))
 	vf.Assert("root-degree-is-an-interval", exists || (got.Degree.Value == 1 && size < 0))
 	vf.Assert("root-size-is-pitch-distance", (size%12+12)%12 == wantSize)
+	// what `text conv syllable` prints for this degree, read back by the reference notation reader
+	pn, pq, pok := spec.ParseIntervalNotation(got.Degree.String())
+	psize, _ := spec.IntervalSize(pn, pq)
+	vf.Assert("printed-root-degree-is-the-written-note", pok && int(pn) == wantNum && (psize%12+12)%12 == wantSize)
 	real, rok := got.Degree.Semitone()
 	vf.Assert("root-degree-playable", rok && (int(real)%12+12)%12 == wantSize)
 	if rootInScale {
@@ -90,6 +94,9 @@ func VerifC03Syllable() {
 	bs, bexists := spec.IntervalSize(got.Base.Value, crdx.QualityCode(got.Base.Name))
 	vf.Assert("bass-degree-is-an-interval", bexists || (got.Base.Value == 1 && bs < 0))
 	vf.Assert("bass-size-is-pitch-distance-from-root", (bs%12+12)%12 == bSize)
+	bpn, bpq, bpok := spec.ParseIntervalNotation(got.Base.String())
+	bpsize, _ := spec.IntervalSize(bpn, bpq)
+	vf.Assert("printed-bass-degree-is-the-written-note", bpok && int(bpn) == bNum && (bpsize%12+12)%12 == bSize)
 	vf.Reach("end")
 	vf.Reach("end-with-bass")
 }
